@@ -12,7 +12,8 @@ LEAN_HELPERS = ['MV.Lemmas.Equality', 'MV.Model.Equality', 'MV.Model.Pitch', 'MV
                 'MV.Model.Types']
 DRIVERS = ['C20']
 GEN = ['Tables', 'Library', 'Dynamics']
-SRC_TIE = ['SrcTonality', 'SrcOps']   # py2lean source images of Tonality.__eq__ / Note.__eq__ proved equal to the model
+SRC_TIE = ['SrcTonality', 'SrcOps',   # py2lean source images of Tonality.__eq__ / Note.__eq__ proved equal to the model
+           'SrcEq']                   # … and of the __eq__ / hash keys / copies / printed forms of melodies, chords, scores, notes, tonalities
 RULE = ('families of objects of one kind built from a random base by changing exactly one field (kind, value, octave, '
         'duration, mode, accidental, amplitude, tags, tempo, pedal, extension spelling / figure, tonality spelling / '
         'degree / mode / octave, chord octave, part order / name / content, chord order) plus rebuilt copies; a case is '
@@ -615,7 +616,7 @@ def correspondence(ctx):
     stream_misc(ctx, ctx.n(200, 6000))
     # kernel-level streams of the source tie (DESIGN §9.6)
     import srctie
-    srctie.run(ctx, SRC_TIE, kernels=['teq', 'neq'])
+    srctie.run(ctx, SRC_TIE, kernels=['teq', 'neq'] + list(srctie.GROUPS['SrcEq']['kernels']))
 
 # ----------------------------------------------------------------------------- the property itself (oracle)
 # Stated on the real objects only; nothing below uses the Lean model.
